@@ -5,7 +5,7 @@
 From Coq Require Import List NArith Bool.
 From Frugal Require Import Bytes Wire Skip Values Desc Spec Encode Decode Checks Tags State Bitset Alloc DescMap Conc LegacyDefs.
 From Frugal.gen Require Import Params.
-From Frugal.proofs Require Import GenOk BytesWire EncodeSpec SizeExact SkipPut DecodeSafe DecodeRefines RoundTrip Corollaries StateProofs BitsetProofs AllocProofs DescMapProofs ConcProofs BufferContract.
+From Frugal.proofs Require Import GenParams GenTables EncodeSpec BufferContract.
 From Frugal.props Require Import Examples.
 From Frugal.proofs Require Import MapOrder.
 Import ListNotations.
@@ -51,3 +51,8 @@ Example C16_two_orders :
   vperm v_ex v_ex_swapped /\ append_struct env_ex 0 v_ex <> append_struct env_ex 0 v_ex_swapped
   /\ len (append_struct env_ex 0 v_ex) = len (append_struct env_ex 0 v_ex_swapped).
 Proof. pose proof ex_two_orders as H. tauto. Qed.
+
+(* the side conditions on the generated constants and tables that the theorems above assume hold
+   for what the translator read from the sources of this run *)
+Theorem C16_side_conditions : params_ok = true /\ tables_ok = true.
+Proof. split; [exact params_ok_holds | exact tables_ok_holds]. Qed.
